@@ -156,14 +156,19 @@ class Prog:
     def nocrash(self, rec, name, desc):
         self.ask(rec, name, desc, lambda r: None)
 
-    def custom(self, rec, name, desc, judge):
-        """judge(decoded value) -> None | ("skip", why) | complaint"""
+    def custom(self, rec, name, desc, judge, known_exc=None):
+        """judge(decoded value) -> None | ("skip", why) | complaint.
+        known_exc=(exception class, tag): that exception is a recorded finding on this input"""
         p = self.p
+        if known_exc is not None and known_exc[1][7:9] in JUDGE_KNOWN:
+            known_exc = None
 
         def fn(r):
             if is_exc(r):
                 if r["exc"] == "NotImplementedError":
                     return ("skip", "declined:NotImplementedError")
+                if known_exc is not None and r["exc"] == known_exc[0]:
+                    return ("skip", "known:" + known_exc[1])
                 return "raised %s (%s)" % (r["exc"], r.get("what"))
             return judge(dec(r, p))
         self.ask(rec, name, desc, fn)
@@ -612,7 +617,11 @@ class C23(Check):
             if slow:
                 self.skip("known:KF-C23-02:edf_shoup_unbounded")
             else:
-                P.custom(["gf_shoup", rg], "gf_shoup", dg, j_set([list(t) for t in irr]))
+                # with n >= 3 the broken trace map can also hand the zero polynomial to gf_frobenius_map,
+                # which then throws DivisionByZeroError (same finding)
+                spur = any(p != 2 and k >= 3 and len(v) >= 2 for k, v in groups.items())
+                P.custom(["gf_shoup", rg], "gf_shoup", dg, j_set([list(t) for t in irr]),
+                         ("DivisionByZeroError", "KF-C23-02:edf_shoup_spurious_throw") if spur else None)
         for k, v in sorted(groups.items()):
             e = ddf_exp[k]
             re_ = P.poly(e) if len(groups) > 1 else rg
@@ -624,7 +633,9 @@ class C23(Check):
             if p != 2 and k >= 2 and len(v) >= 2 and p ** (k - 1) > EDF_SHOUP_LIMIT:
                 self.skip("known:KF-C23-02:edf_shoup_unbounded")
             else:
-                P.custom(["gf_edf_shoup", re_, k], "gf_edf_shoup", de, j_set(v))
+                P.custom(["gf_edf_shoup", re_, k], "gf_edf_shoup", de, j_set(v),
+                         ("DivisionByZeroError", "KF-C23-02:edf_shoup_spurious_throw")
+                         if (p != 2 and k >= 3 and len(v) >= 2) else None)
 
     def judge_unary(self, case):
         p = case["p"]
